@@ -87,6 +87,7 @@ func (m *mergeFields) traverseNode(node resolve.Node) {
 			for j := i + 1; j < len(n.Fields); j++ {
 				if m.fieldsCanMerge(n.Fields[i], n.Fields[j]) {
 					m.mergeValues(n.Fields[i], n.Fields[j])
+					m.mergeParentOnTypeNames(n.Fields[i], n.Fields[j])
 					n.Fields = append(n.Fields[:j], n.Fields[j+1:]...)
 					j--
 				}
@@ -165,6 +166,30 @@ WithNext:
 			}
 		}
 		// if we reach this point, we have a new depth layer and just append it
+		left.ParentOnTypeNames = append(left.ParentOnTypeNames, right.ParentOnTypeNames[i])
+	}
+}
+
+// mergeParentOnTypeNames widens the parent type conditions of left by those of right.
+// Two sibling object fields with the same name can originate from different parent fragments,
+// e.g. `... on User {address {country {code}}} ... on Admin {address {country {code}}}` once the
+// address fields were merged: the merged field has to be resolved for the parent types of both.
+func (m *mergeFields) mergeParentOnTypeNames(left, right *resolve.Field) {
+	if left.ParentOnTypeNames == nil {
+		return
+	}
+	if right.ParentOnTypeNames == nil {
+		left.ParentOnTypeNames = nil
+		return
+	}
+WithNext:
+	for i := range right.ParentOnTypeNames {
+		for j := range left.ParentOnTypeNames {
+			if right.ParentOnTypeNames[i].Depth == left.ParentOnTypeNames[j].Depth {
+				left.ParentOnTypeNames[j].Names = m.deduplicateOnTypeNames(append(left.ParentOnTypeNames[j].Names, right.ParentOnTypeNames[i].Names...))
+				continue WithNext
+			}
+		}
 		left.ParentOnTypeNames = append(left.ParentOnTypeNames, right.ParentOnTypeNames[i])
 	}
 }
